@@ -73,12 +73,15 @@ Fixpoint split_dots (ts : list tok) (cur : label) : list label :=
   | TOct b :: rest => split_dots rest (cur ++ [b])
   end.
 
+Definition is_dot (t : list N) : bool := match t with [b] => Z.of_N b =? 46 | _ => false end.
+
 (* the empty text is the root; otherwise every label must be non-empty, except that one
    trailing dot is allowed ("." alone is the root) *)
 Definition unescape (t : list N) : option (list label) :=
   match t with
   | [] => Some []
   | _ =>
+    if is_dot t then Some [] else
     match tokens t with
     | None => None
     | Some ts =>
